@@ -975,3 +975,168 @@ func isBuiltinCall(c *ssa.Call, names ...string) bool {
 	}
 	return false
 }
+
+// constArrayOf: the elements of a package-level array variable whose initialiser is a literal of
+// constants (stored element by element in init) and that nothing else in its package stores to.
+var constArrayCache = map[*ssa.Global][]ssa.Value{}
+var constArrayBad = map[*ssa.Global]bool{}
+
+func constArrayOf(g *ssa.Global) ([]ssa.Value, bool) {
+	if e, ok := constArrayCache[g]; ok {
+		return e, true
+	}
+	if constArrayBad[g] || g.Pkg == nil {
+		return nil, false
+	}
+	bad := func() ([]ssa.Value, bool) { constArrayBad[g] = true; return nil, false }
+	pt, ok := g.Type().Underlying().(*types.Pointer)
+	if !ok {
+		return bad()
+	}
+	at, ok := pt.Elem().Underlying().(*types.Array)
+	if !ok || at.Len() > 256 {
+		return bad()
+	}
+	elems := make([]ssa.Value, at.Len())
+	stores := 0
+	var fns []*ssa.Function
+	for _, mem := range g.Pkg.Members {
+		switch m := mem.(type) {
+		case *ssa.Function:
+			fns = append(append(fns, m), m.AnonFuncs...)
+		case *ssa.Type:
+			for _, ms := range []*types.MethodSet{g.Pkg.Prog.MethodSets.MethodSet(m.Type()), g.Pkg.Prog.MethodSets.MethodSet(types.NewPointer(m.Type()))} {
+				for i := 0; i < ms.Len(); i++ {
+					if f := g.Pkg.Prog.MethodValue(ms.At(i)); f != nil {
+						fns = append(fns, f)
+					}
+				}
+			}
+		}
+	}
+	for _, f := range fns {
+		for _, b := range f.Blocks {
+			for _, in := range b.Instrs {
+				switch x := in.(type) {
+				case *ssa.Store:
+					if x.Addr == ssa.Value(g) {
+						return bad() // assigned as a whole
+					}
+					if ia, isIA := x.Addr.(*ssa.IndexAddr); isIA && ia.X == ssa.Value(g) {
+						k, isK := ConstInt(ia.Index)
+						_, isC := x.Val.(*ssa.Const)
+						if f.Name() != "init" || !isK || !isC || k < 0 || k >= at.Len() || elems[k] != nil {
+							return bad()
+						}
+						elems[k] = x.Val
+						stores++
+					}
+				}
+			}
+		}
+	}
+	if stores == 0 {
+		return bad()
+	}
+	constArrayCache[g] = elems
+	return elems, true
+}
+
+// globalOfPath finds the package-level variable a cell path "global:<pkg>.<name>" names.
+func globalOfPath(prog *ssa.Program, path string) *ssa.Global {
+	if !strings.HasPrefix(path, "global:") {
+		return nil
+	}
+	rest := strings.TrimPrefix(path, "global:")
+	i := strings.LastIndexByte(rest, '.')
+	if i < 0 {
+		return nil
+	}
+	for _, p := range prog.AllPackages() {
+		if p.Pkg.Path() == rest[:i] {
+			if g, ok := p.Members[rest[i+1:]].(*ssa.Global); ok {
+				return g
+			}
+		}
+	}
+	return nil
+}
+
+// forkTableIndex: tab[i] on a constant table (a package-level array or slice that only holds its
+// literal) with an index the path has bounded inside the table: one state per index value, as for
+// constant maps. Returns nil when the instruction is not of that kind.
+func (ex *Exec) forkTableIndex(s *astate, fr *aframe, x *ssa.IndexAddr) []*astate {
+	b := ex.val(s, fr, x.X)
+	idx := ex.val(s, fr, x.Index)
+	if idx.K != AInt {
+		return nil
+	}
+	if _, isK := idx.ConstVal(); isK {
+		return nil
+	}
+	base, lo, n := "", 0, -1
+	switch {
+	case b.K == APtr && strings.HasPrefix(b.Path, "global:") && !b.Sym:
+		base = b.Path
+	case b.K == ASlice && b.Lo >= 0 && b.Len >= 0 && (strings.HasPrefix(b.Path, "global:")):
+		base, lo, n = b.Path, b.Lo, b.Len
+	default:
+		return nil
+	}
+	if !strings.HasSuffix(base, "$lit") {
+		g := globalOfPath(fr.fn.Prog, base)
+		if g == nil {
+			return nil
+		}
+		elems, ok := constArrayOf(g)
+		if !ok {
+			return nil
+		}
+		if n < 0 {
+			n = len(elems)
+		}
+		et := g.Type().Underlying().(*types.Pointer).Elem().Underlying().(*types.Array).Elem()
+		for i, e := range elems {
+			cell := fmt.Sprintf("%s[%d]", base, i)
+			if _, has := s.mem.cells[cell]; has || s.mem.isHavoc(cell) {
+				continue
+			}
+			v := zeroOf(et)
+			if e != nil {
+				v = ex.val(s, fr, e)
+			}
+			s.mem.cells[cell] = v
+		}
+	}
+	if n < 0 || n > 64 {
+		return nil
+	}
+	src, plain := plainSource(idx.Bits)
+	if !plain {
+		return nil
+	}
+	signed := isSigned(x.Index.Type())
+	rg, okR := s.rangeOf(idx.Bits, signed)
+	if !okR || rg.lo < 0 || rg.hi >= int64(n) {
+		return nil // not bounded inside the table on this path: the ordinary (symbolic) element
+	}
+	var out []*astate
+	for k := rg.lo; k <= rg.hi; k++ {
+		skip := false
+		for _, e := range s.excl[src] {
+			if e == k {
+				skip = true
+			}
+		}
+		if skip {
+			continue
+		}
+		c := s.clone()
+		c.narrow(idx.Bits, signed, k, k)
+		cf := c.frames[len(c.frames)-1]
+		cf.env[x] = AVal{K: APtr, Path: fmt.Sprintf("%s[%d]", base, lo+int(k))}
+		cf.pc++
+		out = append(out, c)
+	}
+	return out
+}
